@@ -55,7 +55,7 @@ def CSet.addContact (C : CSet α) (body : Nat) (point normal : V3 α) (userId : 
   match C.lastOf .contact with
   | some k =>
     let c := C.cs.getD k fresh
-    if c.bodyP = body ∧ c.XP.r = point ∧ c.userId = userId then
+    if c.bodyP = body ∧ c.XP.r = point ∧ c.userId = userId ∧ c.row + c.T.length = C.size then
       let c' := { c with T := c.T ++ [⟨V3.zero, normal⟩], posC := c.posC ++ [false], velC := c.velC ++ [true] }
       ⟨C.cs.set k c', C.size + 1⟩
     else ⟨C.cs ++ [fresh], C.size + 1⟩
@@ -70,7 +70,8 @@ def CSet.addLoop (C : CSet α) (idP idS : Nat) (XP XS : XT α) (axis : SV α) (b
   match C.lastOf .loop with
   | some k =>
     let c := C.cs.getD k fresh
-    if c.bodyP = idP ∧ c.bodyS = idS ∧ c.XP = XP ∧ c.XS = XS ∧ c.userId = userId then
+    if c.bodyP = idP ∧ c.bodyS = idS ∧ c.XP = XP ∧ c.XS = XS ∧ c.userId = userId ∧
+        c.row + c.T.length = C.size then
       let c' := { c with T := c.T ++ [axis], posC := c.posC ++ [true], velC := c.velC ++ [true] }
       ⟨C.cs.set k c', C.size + 1⟩
     else ⟨C.cs ++ [fresh], C.size + 1⟩
